@@ -6,6 +6,7 @@ from abc import ABC, abstractmethod
 from typing import Union, Iterable
 from itertools import chain
 from numpy import atleast_1d, log, pi, zeros, concatenate, where, ndarray, isfinite
+from numpy import integer, floating
 from numpy.random import default_rng
 
 rng = default_rng()
@@ -28,17 +29,19 @@ class BasePrior(ABC):
             """
         )
 
-        if not isinstance(variable_inds, (int, Iterable)):
+        # (numpy integers count as integers: an index taken from an array - arange,
+        # flatnonzero, argsort - is one)
+        if not isinstance(variable_inds, (int, integer, Iterable)):
             raise indices_type_error
 
-        if isinstance(variable_inds, int):
+        if isinstance(variable_inds, (int, integer)):
             variable_inds = [variable_inds]
 
-        if not all(isinstance(p, int) for p in variable_inds):
+        if not all(isinstance(p, (int, integer)) for p in variable_inds):
             raise indices_type_error
 
         # (a list of its own: a list given by the caller is the caller's)
-        variable_inds = list(variable_inds)
+        variable_inds = [int(p) for p in variable_inds]
 
         if n_parameters != len(variable_inds):
             raise ValueError(
@@ -563,9 +566,10 @@ def attempt_array_conversion(param) -> bool:
     # if input is a zero-dimensional array, we need to convert to 1D
     zero_dim_array = isinstance(param, ndarray) and param.ndim == 0
     # if the input is a float or an int, also convert to a 1D array
-    valid_number = isinstance(param, (int, float))
+    # (numpy scalars included: a value taken from an array - counts.max() - is one)
+    valid_number = isinstance(param, (int, float, integer, floating))
     # if the input is a list or tuple containing only floats and ints, also convert
     valid_sequence = isinstance(param, (list, tuple)) and all(
-        isinstance(v, (int, float)) for v in param
+        isinstance(v, (int, float, integer, floating)) for v in param
     )
     return zero_dim_array or valid_sequence or valid_number
